@@ -32,7 +32,7 @@ from mutagen import FileType, Tags, StreamInfo, PaddingInfo
 from mutagen._constants import GENRES
 from mutagen._util import cdata, insert_bytes, DictProxy, MutagenError, \
     hashable, enum, get_size, resize_bytes, loadfile, convert_error, bchr, \
-    reraise
+    reraise, read_full
 from ._atom import Atoms, Atom, AtomError
 from ._util import parse_full_atom
 from ._as_entry import AudioSampleEntry, ASEntryError
@@ -500,13 +500,13 @@ class MP4Tags(DictProxy, Tags):
 
         for atom in path:
             fileobj.seek(atom.offset)
-            size = cdata.uint_be(fileobj.read(4))
+            size = cdata.uint_be(read_full(fileobj, 4))
             if size == 0:
                 # extends to the end of the file, nothing to update
                 continue
             if size == 1:  # 64bit
                 # skip name (4B) and read size (8B)
-                size = cdata.ulonglong_be(fileobj.read(12)[4:])
+                size = cdata.ulonglong_be(read_full(fileobj, 12)[4:])
                 fileobj.seek(atom.offset + 8)
                 fileobj.write(cdata.to_ulonglong_be(size + delta))
             else:  # 32bit
@@ -518,7 +518,7 @@ class MP4Tags(DictProxy, Tags):
         if atom.offset > offset:
             atom.offset += delta
         fileobj.seek(atom.offset + 12)
-        data = fileobj.read(atom.length - 12)
+        data = read_full(fileobj, atom.length - 12)
         fmt = fmt % cdata.uint_be(data[:4])
         try:
             offsets = struct.unpack(fmt, data[4:])
@@ -532,7 +532,7 @@ class MP4Tags(DictProxy, Tags):
         if atom.offset > offset:
             atom.offset += delta
         fileobj.seek(atom.offset + 9)
-        data = fileobj.read(atom.length - 9)
+        data = read_full(fileobj, atom.length - 9)
         flags = cdata.uint_be(b"\x00" + data[:3])
         if flags & 1:
             o = cdata.ulonglong_be(data[7:15])
